@@ -130,7 +130,10 @@ def gen_state(desc: dict, dims: List[int], level: int, kinds: List[str]):
         v = ref.rand_pure(rng, d)
         return v
 
-    if cls == "basis":
+    if cls == "basis0":
+        v = np.zeros(D, complex)
+        v[0] = 1
+    elif cls == "basis":
         v = np.ones(1, complex)
         for d in dims:
             e = np.zeros(d, complex)
